@@ -258,7 +258,7 @@ func (s *Sim) Run(t *rapid.T, o RunOpts) error {
 				co.StripDLP[1] = rapid.Bool().Draw(t, "stripDlpB")
 				var rep *RetransmitReport
 				rep, err = s.DoCut(co)
-				if err == nil && o.AfterCut != nil {
+				if err == nil && s.Aborted == "" && o.AfterCut != nil {
 					err = o.AfterCut(s, rep)
 				}
 			}
@@ -278,7 +278,7 @@ func (s *Sim) Run(t *rapid.T, o RunOpts) error {
 			co.StripDLP[1] = rapid.Bool().Draw(t, "stripDlpB")
 			var rep *RetransmitReport
 			rep, err = s.DoCut(co)
-			if err == nil && o.AfterCut != nil {
+			if err == nil && s.Aborted == "" && o.AfterCut != nil {
 				err = o.AfterCut(s, rep)
 			}
 		}
